@@ -18,7 +18,7 @@ import (
 )
 
 type c09Step struct {
-	Kind string `json:"kind"` // http | frame | wsdial | candidate | bigpoll
+	Kind string `json:"kind"` // http | frame | wsdial | candidate | bigpoll | bomb
 	Desc string `json:"desc"`
 	// http
 	Method  string            `json:"method,omitempty"`
@@ -31,6 +31,7 @@ type c09Step struct {
 }
 
 type c09Case struct {
+	PMD    bool      `json:"permessage_deflate"`
 	Victim string    `json:"victim_transport"`
 	Rev    int       `json:"rev"`
 	Steps  []c09Step `json:"steps"`
@@ -168,9 +169,17 @@ func genC09(rng *rand.Rand, allowSpin bool) c09Case {
 	if c.Victim != "webtransport" && rng.IntN(3) == 0 {
 		c.Rev = 3
 	}
+	c.PMD = rng.IntN(3) == 0
 	n := 1 + rng.IntN(8)
 	for i := 0; i < n; i++ {
 		var st c09Step
+		if c.PMD && c.Victim == "websocket" && rng.IntN(3) == 0 {
+			st.Kind = "bomb"
+			st.Binary = rng.IntN(2) == 0
+			st.Desc = "compressed websocket message that inflates to megabytes"
+			c.Steps = append(c.Steps, st)
+			continue
+		}
 		switch x := rng.IntN(10); {
 		case x < 5:
 			st.Kind = "http"
@@ -231,6 +240,9 @@ func runC09(c c09Case, rng *rand.Rand, r *rep.Report) (key, msg string, stats ma
 			so.SetPingTimeout(5 * time.Second)
 			so.SetUpgradeTimeout(time.Second)
 			so.SetMaxHttpBufferSize(100000)
+			if c.PMD {
+				so.SetPerMessageDeflate(&types.PerMessageDeflate{Threshold: 1024})
+			}
 			w := rig.NewWorld(rig.Options{Server: so})
 			defer w.Finish()
 			canary, err := w.Connect(rig.ClientCfg{Rev: 4, Transport: "polling"})
@@ -246,7 +258,7 @@ func runC09(c c09Case, rng *rand.Rand, r *rep.Report) (key, msg string, stats ma
 				key, msg = "c09-handshake-failed", derr.Error()
 				return
 			}
-			victim, err := w.Connect(rig.ClientCfg{Rev: c.Rev, Transport: c.Victim})
+			victim, err := w.Connect(rig.ClientCfg{Rev: c.Rev, Transport: c.Victim, WSCompress: c.PMD})
 			rig.Wait()
 			if err != nil {
 				key, msg = "c09-handshake-failed", err.Error()
@@ -275,6 +287,27 @@ func runC09(c c09Case, rng *rand.Rand, r *rep.Report) (key, msg string, stats ma
 						x.Abort()
 					}
 					stats["hostile_http_requests"]++
+				case "bomb":
+					// a few kilobytes on the wire, megabytes once inflated
+					if victim.WS != nil {
+						big := make([]byte, 6<<20)
+						for i := range big {
+							big[i] = 'a'
+						}
+						if !st.Binary {
+							big[0] = '4'
+						}
+						victim.WSWriteRaw(st.Binary, big)
+					}
+					stats["compressed_bombs"]++
+					time.Sleep(time.Millisecond)
+					rig.Wait()
+					for _, e := range w.Tap.Of(victim.Sid, "message") {
+						if len(e.Str) > 100000 {
+							key, msg = "c09-work-out-of-proportion:inflated-message", fmt.Sprintf("step %d: a compressed websocket message of a few kilobytes on the wire was inflated to %d bytes and delivered (maxHttpBufferSize 100000)", si, len(e.Str))
+							return
+						}
+					}
 				case "bigpoll":
 					// the decoy session has no reader of its own: a response above the compression
 					// threshold waits for this poll
